@@ -78,6 +78,8 @@ mod serialize;
 
 mod unpretty;
 mod valueaccess;
+#[cfg(feature = "xot_verif")]
+pub mod verif_hooks;
 pub mod xmlname;
 mod xmlvalue;
 mod xotdata;
